@@ -84,8 +84,13 @@ class C11(Check):
                   "are not forwarded (filtered); with no matching flow AND a current controller table the delivery is exactly the most recent port "
                   "(known_dst_fresh_partial). The property's 'exactly the most recent port' clause FAILS on the code as it stands when the destination's latest "
                   "frames were absorbed by a cached flow on another port (known_dst_fresh_defect, decide-checked witness replayed on the real system; "
-                  "stale_only_by_cached_hit / miss_refreshes characterise exactly when the controller table is stale). propagate_inv lifts the invariant to "
-                  "several switches joined by links.")
+                  "stale_only_by_cached_hit / miss_refreshes characterise exactly when the controller table is stale). Networks: every_hop / net_* state "
+                  "the same clauses for every hop of every frame of every history in any network of switches joined by links (per-switch learning state, "
+                  "one clock), hop_provenance says frames only travel along links, net_buffers_drain that no switch ever holds a buffer at quiescence, "
+                  "net_cache_bounded / sweep_bounds that after a sweep no entry is older than 30 s or idle for more than 10 s. The model is parametric in "
+                  "whether the tree carries repair C11-K1 (read from l2_learning.py on every run): for the repaired component current_reachable shows "
+                  "macToPort d = most recent port of d in every reachable state and known_dst_fresh_repaired / ideal_repaired / "
+                  "net_known_dst_fresh_repaired give the clause at full strength.")
     level_note = ("Trusted: Lean kernel, standard axioms, the hand-written Model/L2.lean (frames abstracted to (src,dst,ethertype,key,full,pay); OpenFlow messages "
                   "abstracted to packet_out/flow_mod/barrier records; the controller answers synchronously), Model/BufPool.lean, this harness. The wire codec, "
                   "framing and match semantics themselves are C01/C02/C03; here they are only in the loop of the differential run.")
@@ -94,11 +99,14 @@ class C11(Check):
                     "Python ideal-bridge oracle (harness/c11.py oracle_ex) written independently of the model"]
     assumptions = ["control channel processed to quiescence between data-plane arrivals (single-threaded cooperative POX; the harness pumps the byte pipes)",
                    "flood hold-down _flood_delay = 0 (the module default); ports up, no NO_FLOOD/NO_FWD port config; flow table not full",
+                   "network theorems are per hop; that a frame reaches its destination host across a loop-free topology (end-to-end delivery) is not stated",
                    "frames are untagged Ethernet II whose ofp_match.from_packet is determined by (src,dst,ethertype,key); port numbers < OFPP_MAX"]
     rule = ("case = (transparent?, 1..3 switches with 2..5 ports and pools of 0..4 buffers, loop-free links, history of host frames (UDP/ARP/LLDP/raw; unicast, "
             "broadcast, IP multicast, STP/LLDP/pause destinations; host moves; frames longer than miss_send_len), clock advances around the 10 s/30 s timeouts, sweeps); "
             "corpus = ALL length-4 sequences over a 9-letter (quick) / 12-letter (thorough) alphabet for pools of 0 and 1 (and 2) buffers + hand-written seeds incl. the "
-            "defect witness; random histories to length 200; non-trivial = the history has both a packet-in and a cached-flow hit, or four kinds of outcome")
+            "defect witness and keep-alive histories (a flow refreshed past its hard timeout while the destination moves, sweep before every frame); random "
+            "histories to length 200, one in five from the keep-alive family; the oracle keeps the SPECIFIED flow cache (10 s idle / 30 s hard, removed at "
+            "the first sweep after a timeout) to judge 'no older cached flow is still installed'; non-trivial = the history has both a packet-in and a cached-flow hit, or four kinds of outcome")
 
     # ------------------------------------------------------------------ real system
     def setup(self):
